@@ -608,7 +608,7 @@ Arguments apply_config : simpl never.
 Lemma parse_env_complete : forall f, penv_ok (parse_env fx f).
 Proof.
   intros f sp e d W H. destruct f as [|f]; [discriminate|]. simpl in H.
-  destruct (defaults_and_environ (parse_env fx f) sp (Some e)) as [cfg|] eqn:D; [|discriminate].
+  destruct (defaults_and_environ (fun _ => parse_env fx f) sp (Some e)) as [cfg|] eqn:D; [|discriminate].
   apply (frame_complete sp cfg d W (parse_common_frame _ _ _ _ _ _ _ _ W H)).
   apply (defaults_and_environ_complete _ _ _ _ D).
 Qed.
@@ -619,7 +619,7 @@ Lemma parse_args_last f env skipval p a nsp cfg :
   exists cfg3, parse_common fx (parse_env fx f) f env skipval true p cfg3 = Ok cfg.
 Proof.
   intro H. simpl in H.
-  destruct (defaults_and_environ (parse_env fx f) p env) as [cfg0|]; [|discriminate].
+  destruct (defaults_and_environ (fun _ => parse_env fx f) p env) as [cfg0|]; [|discriminate].
   destruct a as [items sub].
   match type of H with match ?X with _ => _ end = _ => destruct X as [cfg2|]; [|discriminate] end.
   match type of H with match ?X with _ => _ end = _ => destruct X as [cfg3|]; [|discriminate] end.
@@ -632,12 +632,16 @@ Proof.
   intros W H. unfold parse in H.
   assert (C : forall c, parse_cfg fx fuel (i_env x) p c = Ok cfg -> Sel af p cfg).
   { intros c Hc. destruct fuel as [|f]; [discriminate|]. simpl in Hc.
-    destruct (defaults_and_environ (parse_env fx f) p (i_env x)) as [base|]; [|discriminate].
+    destruct (defaults_and_environ (fun _ => parse_env fx f) p (i_env x)) as [base|]; [|discriminate].
     apply (parse_common_sel _ _ _ _ _ _ _ (parse_env_complete f) W Hc). }
-  destruct (i_entry x) as [a|c|c]; [|apply (C c H)|apply (C c H)].
-  destruct fuel as [|f]; [discriminate|].
-  destruct (parse_args_last _ _ _ _ _ _ _ H) as [cfg3 H3].
-  apply (parse_common_sel _ _ _ _ _ _ _ (parse_env_complete f) W H3).
+  destruct (i_entry x) as [a|c|c|m]; [|apply (C c H)|apply (C c H)|].
+  - destruct fuel as [|f]; [discriminate|].
+    destruct (parse_args_last _ _ _ _ _ _ _ H) as [cfg3 H3].
+    apply (parse_common_sel _ _ _ _ _ _ _ (parse_env_complete f) W H3).
+  - (* parse_env(mapping): ends in the strict _parse_common as well *)
+    destruct fuel as [|f]; [discriminate|]. simpl in H.
+    match type of H with match ?X with _ => _ end = _ => destruct X as [cfg0|]; [|discriminate] end.
+    apply (parse_common_sel _ _ _ _ _ _ _ (parse_env_complete f) W H).
 Qed.
 
 End WithVariant.
@@ -831,7 +835,7 @@ Lemma argv_name_wins fuel env p items n rest cfg :
   In n (p_names p) /\ get (p_dest p) cfg = Some (NStr n).
 Proof.
   intros W H. unfold parse in H. simpl in H. destruct fuel as [|f]; [discriminate|]. simpl in H.
-  destruct (defaults_and_environ (parse_env fx f) p env) as [cfg0|]; [|discriminate].
+  destruct (defaults_and_environ (fun _ => parse_env fx f) p env) as [cfg0|]; [|discriminate].
   match type of H with match ?X with _ => _ end = _ => destruct X as [cfg2|]; [|discriminate] end.
   destruct (p_has p) eqn:Hh; [|discriminate]. simpl in H.
   destruct (assoc n (p_choices p)) as [sp|] eqn:A; [|discriminate].
@@ -909,7 +913,7 @@ Lemma config_name_wins fuel env p c n cfg :
   parse_cfg fx fuel env p c = Ok cfg -> get (p_dest p) cfg = Some (NStr n).
 Proof.
   intros W Hh Nm H. destruct fuel as [|f]; [discriminate|]. simpl in H.
-  destruct (defaults_and_environ (parse_env fx f) p env) as [base|]; [|discriminate].
+  destruct (defaults_and_environ (fun _ => parse_env fx f) p env) as [base|]; [|discriminate].
   apply (parse_common_keeps_dest _ _ _ _ _ _ _ _ (NStr n) W Hh H); [|discriminate].
   apply merge_leaf.
   - rewrite to_ns_obj. apply obj_ns_nodup.
